@@ -65,5 +65,77 @@ cp /verif/known_findings.json $T/
 run C01 "internal/agent/agent_shard_send.go=$T/agent_shard_send.go;internal/aggregator/aggregator.go=$T/aggregator.go"
 run C20 "internal/metajournal/meta_metrics.go=$T/meta_metrics.go;internal/metajournal/journal_fast.go=$T/journal_fast.go"
 run C26 "internal/api/sql_query_series.go=$T/sql_query_series.go"
+
+# second batch: behaviour-preserving rewrites aimed at the rules added from seeds
+python3 - "$T" <<'PY'
+import re, sys
+T = sys.argv[1]
+def rep(s, old, new, n=1):
+    assert s.count(old) >= n, old
+    return s.replace(old, new)
+# C25: renamed locals, commuted disjuncts, flipped comparison, counted loop instead of range
+s = open('/repo/internal/api/table.go').read()
+s = re.sub(r'\bfromTime\b', 'lo', s); s = re.sub(r'\btoTime\b', 'hi', s); s = re.sub(r'\browsCount\b', 'taken', s)
+s = rep(s, 'if hi < lod.FromSec || lod.ToSec < lo {', 'if lod.ToSec < lo || lod.FromSec > hi {')
+s = rep(s, 'for range q.sel { // one column per function of this query', 'for k := 0; k < len(q.sel); k++ {')
+s = rep(s, 'side != 0 && side == rowSide(rows[len(rows)-1], from, to, fromEnd) {', 'rowSide(rows[len(rows)-1], from, to, fromEnd) == side && 0 != side {')
+open(T + '/table.go', 'w').write(s)
+# C14-R7: the same class bounds written differently
+s = open('/repo/internal/vkgo/basictl/basictl2.go').read()
+s = rep(s, 'func TL2WriteSize(w []byte, l int) []byte {\n\tswitch {\n\tcase l < mediumStringMarker:', 'func TL2WriteSize(w []byte, l int) []byte {\n\tswitch {\n\tcase l <= mediumStringMarker-1:')
+s = rep(s, 'func TL2CalculateSize(l int) int {\n\tswitch {\n\tcase l < mediumStringMarker:', 'func TL2CalculateSize(l int) int {\n\tswitch {\n\tcase !(l >= mediumStringMarker):')
+open(T + '/basictl2.go', 'w').write(s)
+s = open('/repo/internal/vkgo/basictl/basictl.go').read()
+s = rep(s, '\tcase l <= tinyStringLen:\n\t\tw = append(w, byte(l))', '\tcase l < tinyStringLen+1:\n\t\tw = append(w, byte(l))')
+open(T + '/basictl.go', 'w').write(s)
+# C05: clamps with max(), flipped comparison
+s = open('/repo/internal/data_model/sampling.go').read()
+s = rep(s, '\tif sfNum < 1 {\n\t\tsfNum = 1\n\t}\n\tif sfDenom < 1 {\n\t\tsfDenom = 1\n\t}\n\tif sfNum <= sfDenom {', '\tsfNum = max(sfNum, 1)\n\tsfDenom = max(1, sfDenom)\n\tif sfDenom >= sfNum {')
+s = rep(s, 'if h.items[i].Item.MetricMeta != nil && h.items[i].MetricID == h.items[i].Item.MetricMeta.MetricID {', 'if mm := h.items[i].Item.MetricMeta; mm != nil && mm.MetricID == h.items[i].MetricID {')
+open(T + '/sampling.go', 'w').write(s)
+# C22: renamed local, commuted sum
+s = open('/repo/internal/data_model/timescale.go').read()
+s = re.sub(r'\blodStart\b', 'from', s)
+s = rep(s, 'n = resLen + lodLen + m', 'n = m + lodLen + resLen')
+open(T + '/timescale.go', 'w').write(s)
+# C21-R7: the two commits in the other order
+s = open('/repo/internal/data_model/chunked_storage2.go').read()
+s = rep(s, '\tc.offset = c.nextOffset\n\tc.hash = c.nextHash\n', '\tc.hash = c.nextHash\n\tc.offset = c.nextOffset\n')
+open(T + '/chunked_storage2.go', 'w').write(s)
+# C28: guard alternatives reordered, comparison flipped
+s = open('/repo/internal/promql/parser/printer.go').read()
+s = rep(s, '(len(vm.MatchingLabels) > 0 || vm.On || vm.Card == CardManyToOne || vm.Card == CardOneToMany)', '(vm.Card == CardOneToMany || vm.On || vm.Card == CardManyToOne || 0 < len(vm.MatchingLabels))')
+open(T + '/printer.go', 'w').write(s)
+s = open('/repo/internal/promql/parser/lex.go').read()
+s = rep(s, 'if x > max || 0xD800 <= x && x < 0xE000 {', 'if 0xD800 <= x && x < 0xE000 || max < x {')
+open(T + '/lex.go', 'w').write(s)
+# C24-R5: commuted increment; C31: renamed buffer variable
+s = open('/repo/internal/api/pcache.go').read()
+s = rep(s, 'c.size += 1 + len(rows)', 'c.size += len(rows) + 1')
+open(T + '/pcache.go', 'w').write(s)
+s = open('/repo/internal/balancer/egress.go').read()
+s = re.sub(r'\bbufs\b', 'iov', s)
+s = rep(s, 'if writeDeadline.IsZero() || s.cfg.WriteTimeout-time.Until(writeDeadline) > writeTimeoutAccuracy {', 'if writeDeadline.IsZero() || writeTimeoutAccuracy < s.cfg.WriteTimeout-time.Until(writeDeadline) {')
+open(T + '/egress.go', 'w').write(s)
+# C12-R9: the emptiness test of histogram and values split in two
+s = open('/repo/internal/agent/agent.go').read()
+s = rep(s, 'if len(m.Histogram)+len(m.Value) != 0 {', 'if len(m.Value) != 0 || len(m.Histogram) != 0 {')
+open(T + '/agent.go', 'w').write(s)
+# C27: index of the last level in a local
+s = open('/repo/internal/promql/engine.go').read()
+s = rep(s, 'stepMin := ev.t.LODs[len(ev.t.LODs)-1].Step', 'finest := len(ev.t.LODs) - 1\n\tstepMin := ev.t.LODs[finest].Step')
+open(T + '/engine.go', 'w').write(s)
+PY
+run C25 "internal/api/table.go=$T/table.go"
+run C14 "internal/vkgo/basictl/basictl2.go=$T/basictl2.go;internal/vkgo/basictl/basictl.go=$T/basictl.go"
+run C05 "internal/data_model/sampling.go=$T/sampling.go"
+run C06 "internal/data_model/sampling.go=$T/sampling.go"
+run C22 "internal/data_model/timescale.go=$T/timescale.go"
+run C21 "internal/data_model/chunked_storage2.go=$T/chunked_storage2.go"
+run C28 "internal/promql/parser/printer.go=$T/printer.go;internal/promql/parser/lex.go=$T/lex.go"
+run C24 "internal/api/pcache.go=$T/pcache.go"
+run C31 "internal/balancer/egress.go=$T/egress.go"
+run C12 "internal/agent/agent.go=$T/agent.go"
+run C27 "internal/promql/engine.go=$T/engine.go"
 rm -rf "$T"
 exit $rc
